@@ -733,47 +733,24 @@ fn test_exponent() {
 
 /// Build a high precision float from each part of literal
 fn calculate_float64_from_parts(left: DigitSequence, right: DigitSequence, exponent: i64) -> f64 {
-    let mut left_combined = 0f64;
-    for digit in left {
-        left_combined *= 10f64;
-        left_combined += digit as f64;
+    // Write the value out as decimal text and let the standard library pick the nearest double
+    // Accumulating the digits in floating point rounds at every step and lands one ulp off for values like 0.055
+    let mut text = String::with_capacity(left.len() + right.len() + 24);
+    for digit in &left {
+        text.push(char::from(b'0' + *digit as u8));
     }
-    let left_float = left_combined;
+    if left.is_empty() {
+        text.push('0');
+    }
+    text.push('.');
+    for digit in &right {
+        text.push(char::from(b'0' + *digit as u8));
+    }
+    text.push('e');
+    text.push_str(&exponent.to_string());
 
-    let mut right_combined = 0f64;
-    let right_len = right.len();
-    for digit in right {
-        right_combined *= 10f64;
-        right_combined += digit as f64;
-    }
-    let mut right_float = right_combined;
-    for _ in 0..right_len {
-        right_float /= 10f64;
-    }
-
-    let mantissa = left_float + right_float;
-    let mut value64 = mantissa;
-    if exponent > 0 {
-        for _ in 0..exponent {
-            // Once the value saturated further scaling does not change it
-            if value64 == 0.0 || value64.is_infinite() {
-                break;
-            }
-            value64 *= 10f64;
-        }
-    } else {
-        let mut m = 1.0f64;
-        for _ in 0..(-exponent) {
-            // Once the divisor saturated further scaling does not change it
-            if m.is_infinite() {
-                break;
-            }
-            m *= 10f64;
-        }
-        value64 /= m;
-    }
-
-    value64
+    text.parse::<f64>()
+        .expect("digits with an exponent are a valid float")
 }
 
 /// Parse a float literal
